@@ -177,3 +177,12 @@ Proof.
   intros Hfar ->. replace (y - y) with 0 in Hfar by ring. rewrite Rabs_R0 in Hfar.
   pose proof (Rabs_pos y). pose proof rtol_swath_pos. pose proof atol_swath_pos. nra.
 Qed.
+
+(* xarray-over-dask swaths: == is exactly "same dask names", i.e. exactly "same byte image", in every arithmetic *)
+Lemma dask_swath_eq_iff_image {T} (OP : ops T) (a b : swath T) :
+  s_kind a = 2%Z -> s_kind b = 2%Z -> (swath_eq OP a b = true <-> swath_image a = swath_image b).
+Proof.
+  intros Ha Hb. unfold swath_eq, swath_image. rewrite Ha, Hb. cbn. rewrite andb_true_iff, !Z.eqb_eq. split.
+  - intros [-> ->]. reflexivity.
+  - intros E. injection E as -> ->. auto.
+Qed.
